@@ -35,6 +35,16 @@ pub fn build_fixtures(w: &WorkDir, thorough: bool) -> (Vec<Fixture>, Vec<Fixture
 		w.write(name, data);
 		good.push(Fixture { name: name.into(), fails: false });
 	}
+	// outputs that contain a line-feed byte followed by a long stretch without one (MessagePack: the
+	// integer 10 / a raw newline inside a string): a line-buffering layer splits its writes there
+	for (name, data) in [
+		("nl-tail-1k.json", format!("[10,\"{}\"]\n", "x".repeat(1021))),
+		("nl-tail-5k.json", format!("[10,\"{}\"]\n", "x".repeat(5000))),
+		("nl-mid-3k.json", format!("{{\"s\":\"line one\\n{}\"}}\n", "x".repeat(3000))),
+	] {
+		w.write(name, data.as_bytes());
+		good.push(Fixture { name: name.into(), fails: false });
+	}
 	w.write("small.yaml", b"y: 1\n---\n- 2\n");
 	good.push(Fixture { name: "small.yaml".into(), fails: false });
 	w.write("small.msgpack", b"\x81\xa1m\x01");
@@ -191,7 +201,7 @@ pub fn run(ctx: &Ctx) -> CheckOutput {
 	CheckOutput {
 		level: "fault_enumeration",
 		tally,
-		rule: format!("inputs by output size class {{12 B, 8 KiB-1, 8 KiB, 8 KiB+1, 70 KiB{}}} plus small YAML/MessagePack/TOML files; failure kinds {{missing file, syntax error at byte 0, syntax error after a complete 9 KB document, syntax error 20 levels deep, undetectable format, value the target refuses (null key, binary, null), second document (refused by TOML), directory, second use of '-'}}; all lists with 0-2 good inputs before the failing one and 0-1 after{}, all 4 targets, stdout a pipe and a regular file, through the real binary; oracle: the exit status is 1 exactly when the library fails on some input, stdout then STARTS WITH the concatenation of the library translations of all inputs before it (and is a prefix of everything the library produced); for all-good lists exit 0 and stdout equals the full concatenation.", ", 1.2 MB", if thorough { " and lists of 6 inputs over the reduced size alphabet with the failing input at every position" } else { "" }),
+		rule: format!("inputs by output size class {{12 B, 8 KiB-1, 8 KiB, 8 KiB+1, 70 KiB{}}} plus small YAML/MessagePack/TOML files and documents whose output holds a line-feed byte followed by 1-5 KB without one; failure kinds {{missing file, syntax error at byte 0, syntax error after a complete 9 KB document, syntax error 20 levels deep, undetectable format, value the target refuses (null key, binary, null), second document (refused by TOML), directory, second use of '-'}}; all lists with 0-2 good inputs before the failing one and 0-1 after{}, all 4 targets, stdout a pipe and a regular file, through the real binary; oracle: the exit status is 1 exactly when the library fails on some input, stdout then STARTS WITH the concatenation of the library translations of all inputs before it (and is a prefix of everything the library produced); for all-good lists exit 0 and stdout equals the full concatenation.", ", 1.2 MB", if thorough { " and lists of 6 inputs over the reduced size alphabet with the failing input at every position" } else { "" }),
 		exhaustive: true,
 		bounds: json!({"max_inputs": if thorough { 6 } else { 3 }}),
 		assumptions: vec!["the library run in-process (one Translator, same order) defines the expected bytes".into()],
